@@ -189,7 +189,8 @@ def big_frame_plan(draw, kinds=ALL_FRAME_KINDS, max_cols=3, min_cols=1, prefix="
     return {"n": n, "cols": cols}
 
 
-VIAS = ["copy", "deepcopy", "slice_all", "filter_all", "select_all", "rbind_halves", "modify_nothing"]
+VIAS = ["copy", "deepcopy", "slice_all", "filter_all", "select_all", "rbind_halves", "modify_nothing",
+        "from_pandas", "from_arrow", "parquet", "npz", "pickle", "sorted_by_rid", "left_join_nothing"]
 
 
 @st.composite
